@@ -22,6 +22,9 @@ EXPLANATION = (
 EXPLANATION += (
     " " + "R2 also: every definition of a read's `positions` in find_components is a comprehension over the read's own variants (a slice of the global position list would merge positions the read does not cover)."
 )
+EXPLANATION += (
+    " " + "R4 also: every sample's set of heterozygous positions is an object of its own (no dict.fromkeys(keys, <mutable>))."
+)
 NOT_DECIDED = "That the union-find ends with the right partition for every merge sequence (C18's history quantifier); effects of read selection on connectivity."
 ASSUMPTIONS = ["values handed to one ComponentFinder are distinct and totally ordered by <"]
 
